@@ -43,13 +43,14 @@ def scenarios(rng, n, count):
     return out
 
 
-def build(n, scn, parts, dev=()):
+def build(n, scn, parts, dev=(), allow_zero=False):
     defs = {"MC_Scn": mc.Expr("{" + ", ".join(tla(s) for s in scn) + "}"),
             "MC_Parts": mc.Expr("{" + ", ".join("{" + ", ".join("{" + ", ".join(map(str, b)) + "}" for b in p) + "}"
                                                 for p in parts) + "}"),
             "MC_Dev": mc.Expr("{" + ", ".join('"%s"' % d for d in dev) + "}")}
     text = mc.module("MC_GmmStats", ["GmmStats"], defs)
-    return text, {"N": n, "C": 2}, {"Scenarios": "MC_Scn", "Partitions": "MC_Parts", "Dev": "MC_Dev"}
+    return text, {"N": n, "C": 2, "AllowZero": mc.Expr("TRUE" if allow_zero else "FALSE")}, \
+        {"Scenarios": "MC_Scn", "Partitions": "MC_Parts", "Dev": "MC_Dev"}
 
 
 def run(ck):
@@ -75,8 +76,18 @@ def run(ck):
                  seed=ck.seed + 1, coverage=False)
     ck.account("stats-heap-simulate", r2)
     behaviours += r2.records
-    for d in ("IADD_SKIPS_PXX", "ADD_MUTATES_LEFT"):
-        t3, c3, s3 = build(3, scn[:2], list(set_partitions(range(1, 4))), dev=[d])
+    # the container life cycle (zero accumulators from the constructor / resize / init_fields, reset of a retired
+    # container) on three samples
+    tz, cz, sz = build(3, scn[:1] if quick else scn[:3], list(set_partitions(range(1, 4))), allow_zero=True)
+    scn3 = [{k: v[:3] for k, v in s_.items()} for s_ in (scn[:1] if quick else scn[:3])]
+    tz, cz, sz = build(3, scn3, list(set_partitions(range(1, 4))), allow_zero=True)
+    rz = tlc.run(ck.work, "MC_GmmStats", mc.cfg(consts=cz, subst=sz, invariants=INV, properties=PROPS, view="View",
+                                                 constraints=["Export"]), root_text=tz, workers=16, coverage=not quick)
+    ck.account("stats-heap-life-cycle", rz)
+    zrecs = [b for b in rz.records if any(h["op"] in ("Zero", "Reset") for h in b["hist"])]
+    ck.extra["life_cycle_behaviours"] = len(zrecs)
+    for d in ("IADD_SKIPS_PXX", "ADD_MUTATES_LEFT", "RESET_SHARES_MOMENT_BUFFERS"):
+        t3, c3, s3 = build(3, scn3[:2], list(set_partitions(range(1, 4))), dev=[d], allow_zero=(d == "RESET_SHARES_MOMENT_BUFFERS"))
         r3 = tlc.run(ck.work, "MC_GmmStats", mc.cfg(consts=c3, subst=s3, invariants=INV, properties=PROPS, view="View"),
                      root_text=t3, workers=8, coverage=False, expect_violation=True)
         ck.account("deviation:" + d, r3, expect_violation=True)
@@ -92,6 +103,10 @@ def run(ck):
         uniq = rng.sample(uniq, limit)
     for b in uniq:
         replay(ck, em, b, rng, n)
+    zl = 150 if quick else 1500
+    zrecs.sort(key=lambda b: repr(b["hist"]))
+    for b in (rng.sample(zrecs, zl) if len(zrecs) > zl else zrecs):
+        replay(ck, em, b, rng, 3)
     ck.extra["behaviours_exported"] = len(behaviours)
 
 
@@ -201,6 +216,24 @@ def replay(ck, em, beh, rng, n):
                         if len(tr) != 1 or not tr[0].is_similar_to(s, rtol=1e-12, atol=1e-12):
                             return bad("TransformEqAccStats", "transform([block]) differs from acc_stats(block)")
                 heap.append(s)
+            elif op == "Zero":
+                # a zero accumulator: from the constructor, or another container re-initialised / resized
+                how = int(r.randint(0, 4))
+                if how == 0:
+                    z = em.GMMStats(C, D)
+                elif how == 1:
+                    z = em.GMMStats(C + 1, D + 2)
+                    z.n = np.ones(C + 1)
+                    z.resize(C, D)
+                elif how == 2:
+                    z = m.acc_stats(X[:1])
+                    z.init_fields()
+                else:
+                    z = m.acc_stats(X)
+                    z.reset()
+                heap.append(z)
+            elif op == "Reset":
+                heap[h["a"] - 1].reset()
             elif op == "Add":
                 heap.append(heap[h["a"] - 1] + heap[h["b"] - 1])
             elif op == "IAdd":
